@@ -27,11 +27,12 @@ type negOffer struct {
 	Ext    string     `json:"ext"`
 }
 type negCase struct {
-	Header []negRange `json:"header"`
-	Offers []negOffer `json:"offers"`
-	Pick   int        `json:"pick"`
-	FmtPlain   string `json:"fmtPlain"`
-	FmtDefault string `json:"fmtDefault"`
+	Kind       string     `json:"kind"`
+	Header     []negRange `json:"header"`
+	Offers     []negOffer `json:"offers"`
+	Pick       int        `json:"pick"`
+	FmtPlain   string     `json:"fmtPlain"`
+	FmtDefault string     `json:"fmtDefault"`
 }
 
 func qStr(q, style int) string {
@@ -85,17 +86,91 @@ func negOfferStr(of negOffer) string {
 	return s
 }
 
+// token-list negotiation: the abstract tokens t1..t3 stand for real charsets / encodings / languages
+var negTokens = map[string]map[string]string{
+	"Accept-Charset":  {"t1": "utf-8", "t2": "iso-8859-1", "t3": "us-ascii", "*": "*"},
+	"Accept-Encoding": {"t1": "gzip", "t2": "br", "t3": "deflate", "*": "*"},
+	"Accept-Language": {"t1": "en", "t2": "de", "t3": "fr", "*": "*"},
+}
+
+func negTokenCase(app *fiber.App, o *out, cs *negCase, n int) (picked bool) {
+	for _, hname := range []string{"Accept-Charset", "Accept-Encoding", "Accept-Language"} {
+		tm := negTokens[hname]
+		offers := make([]string, len(cs.Offers))
+		for i, of := range cs.Offers {
+			offers[i] = tm[of.Type]
+		}
+		exp := ""
+		if cs.Pick > 0 {
+			exp = offers[cs.Pick-1]
+		}
+		for style := 0; style < 4; style++ {
+			var parts []string
+			sep, psep := ", ", ";"
+			if (style+n)%4 == 1 {
+				sep, psep = " , ", " ; "
+			}
+			for _, r := range cs.Header {
+				s := tm[r.Type]
+				if r.Q != 1000 || (style+n)%4 == 1 {
+					s += psep + "q=" + qStr(r.Q, style+n)
+				}
+				parts = append(parts, s)
+			}
+			if (style+n)%4 == 3 && len(parts) > 0 {
+				parts = append(parts, parts[len(parts)-1])
+			}
+			hdr := strings.Join(parts, sep)
+			fctx := &fasthttp.RequestCtx{}
+			if len(cs.Header) > 0 {
+				fctx.Request.Header.Set(hname, hdr)
+			}
+			c := app.AcquireCtx(fctx)
+			var got, got2 string
+			switch hname {
+			case "Accept-Charset":
+				got, got2 = c.AcceptsCharsets(offers...), c.AcceptsCharsets(offers...)
+			case "Accept-Encoding":
+				got, got2 = c.AcceptsEncodings(offers...), c.AcceptsEncodings(offers...)
+			default:
+				got, got2 = c.AcceptsLanguages(offers...), c.AcceptsLanguages(offers...)
+			}
+			app.ReleaseCtx(c)
+			bad := ""
+			switch {
+			case got != exp:
+				bad = "picks another offer"
+			case got2 != got:
+				bad = "is not stable on the same context"
+			}
+			if bad != "" {
+				o.violation(map[string]any{"check": "negotiation-token", "prop": "C09", "what": hname + " negotiation " + bad, "header": hname, "value": hdr, "offers": offers,
+					"expected": exp, "observed": got, "abstract": cs})
+				return cs.Pick > 0
+			}
+		}
+	}
+	return cs.Pick > 0
+}
+
 func TestC09(t *testing.T) {
 	o := newOut(t)
 	defer o.close()
 	app := fiber.New()
-	var n, nPicked, nNone, nParam int
+	var n, nPicked, nNone, nParam, nTok, nTokPicked int
 	readCases(t, "VERIF_CASES", func(line []byte) {
 		var cs negCase
 		if err := json.Unmarshal(line, &cs); err != nil {
 			t.Fatalf("bad case %v", err)
 		}
 		n++
+		if cs.Kind == "token" {
+			nTok++
+			if negTokenCase(app, o, &cs, n) {
+				nTokPicked++
+			}
+			return
+		}
 		offers := make([]string, len(cs.Offers))
 		for i, of := range cs.Offers {
 			offers[i] = negOfferStr(of)
@@ -185,5 +260,6 @@ func TestC09(t *testing.T) {
 			o.sample(map[string]any{"accept": negHeader(cs.Header, 1), "offers": offers, "pick": exp})
 		}
 	})
-	o.summary(map[string]any{"cases": n, "picked": nPicked, "none_acceptable": nNone, "with_range_parameters": nParam, "violations": o.nV})
+	o.summary(map[string]any{"cases": n, "picked": nPicked, "none_acceptable": nNone, "with_range_parameters": nParam,
+		"token_list_cases": nTok, "token_list_picked": nTokPicked, "violations": o.nV})
 }
